@@ -27,6 +27,8 @@ def run(ck, facts):
     ck.rule("R4", "runtime flag/payload consistency: union arm `ok` is written/read only together with is_ok = true, `err` only with false; DiplomatOption<T> is DiplomatResult<T, ()> with a zero-sized err arm")
     ck.rule("R5", "record shape {payload union; bool is_ok} in every mirror; the per-method C result record emits the union iff a payload line is emitted")
     ck.rule("R6", "macro: Option<non-pointer> returns are rewritten to DiplomatResult<T,()> via ok_or(()).into(), Option<pointer> returns unchanged; holds in every generated body of the repo's bridges")
+    ck.rule("R7", "every place that splits Option payloads into `nullable pointer` vs `record with flag` uses the same split {&T, Box<T>} (is_ffi_safe, ffi_safe_version, the macro's return arm); "
+                  "is_ffi_safe table and the per-payload option record key shared with C05.R6 / C07.R2")
     ck.not_decided += ["behavioural equality for all values (runtime quantity)"]
 
     # ---------------- R1 type-graph non-interference
@@ -354,6 +356,61 @@ def run(ck, facts):
                 ck.ok("R6", key, "returns DiplomatResult directly", C.loc(f))
     if n6 < 20:
         ck.bad("R6", "corpus-floor", "only %d DiplomatResult-returning generated fns examined" % n6)
+
+    # ---------------- R7 sibling classification of Option payloads
+    TN = "diplomat_core::ast::types::TypeName"
+
+    def inner_splits(f):
+        """matches on TypeName nested inside an arm / if-let selecting TypeName::Option"""
+        out = []
+
+        def scan(n, in_opt):
+            if not isinstance(n, dict):
+                return
+            k = n.get("k")
+            if k == "match" and (n.get("sadt") or "").endswith("ast::types::TypeName"):
+                if in_opt:
+                    out.append(n)
+                for arm in n["arms"]:
+                    is_opt = (arm["pat"].get("v") or "").split("::")[-1] == "Option"
+                    scan(arm.get("b"), in_opt or is_opt)
+                    scan(arm.get("g"), in_opt)
+                scan(n.get("s") or n.get("e"), in_opt)
+                return
+            if k == "if":
+                opt_let = any(x.get("k") == "let" and isinstance(x.get("pat"), dict) and (x["pat"].get("v") or "").split("::")[-1] == "Option" for x in C.walk(n.get("c") or {}))
+                scan(n.get("c"), in_opt)
+                scan(n.get("t"), in_opt or opt_let)
+                scan(n.get("e"), in_opt)
+                return
+            if k in ("iflet", "let") or n.get("pat"):
+                pv = n.get("pat") if isinstance(n.get("pat"), dict) else None
+                is_opt = bool(pv) and (pv.get("v") or "").split("::")[-1] == "Option" and "TypeName" in (pv.get("adt") or pv.get("v") or "TypeName")
+                for c in C.children(n):
+                    scan(c, in_opt or is_opt)
+                return
+            for c in C.children(n):
+                scan(c, in_opt)
+        scan(C.fn_body(f), False)
+        return out
+    sites = [("is_ffi_safe", core.fn("ast::types::TypeName::is_ffi_safe")), ("ffi_safe_version", core.fn("ast::types::TypeName::ffi_safe_version")),
+             ("macro::gen_custom_type_method", facts.macro.fn("gen_custom_type_method"))]
+    nsp = 0
+    for label, f in sites:
+        for mt in inner_splits(f):
+            rows = C.decision_table(mt, adts, TN)
+            first = sorted({v.variant for v, hits in rows if hits and hits[0][0] == 0 and v.variant})
+            nsp += 1
+            ck.expect(first == ["Box", "Reference"], "R7", "%s/pointer-like-payloads" % label, str(first),
+                      "%s treats Option<%s> as a nullable pointer; only &T and Box<T> have the null niche the C side relies on (anything else is a record with a flag, laid out differently by rustc)" % (label, first), C.loc(f, mt.get("ln")))
+    if nsp < 3:
+        ck.bad("R7", "split-floor", "only %d Option payload classifications found (3 counted)" % nsp)
+    import c05
+    import c07
+    sub = C.SubCheck(ck, "R7", "", ["R6"])
+    c05.run(sub, facts)
+    sub2 = C.SubCheck(ck, "R7", "", ["R2"], key_re=r"cache-key")
+    c07.run(sub2, facts)
 
 
 def _walk_val(v):
